@@ -5,35 +5,55 @@
 
 package rtp
 
-import "time"
+import (
+	"reflect"
+	"time"
+	"unsafe"
+)
 
 // Verification-only accessors (build tag verif). They add no behaviour to normal builds.
+// Fields are looked up by name at run time, so that a restructured implementation still
+// compiles with the tag; an accessor that no longer fits reports false.
 
-// VerifSetPacketizerClock replaces the packetizer's time source.
-func VerifSetPacketizerClock(p Packetizer, f func() time.Time) bool {
-	pp, ok := p.(*packetizer)
-	if ok {
-		pp.timegen = f
+func verifField(obj any, name string, kind reflect.Kind) (reflect.Value, bool) {
+	v := reflect.ValueOf(obj)
+	if v.Kind() != reflect.Ptr || v.IsNil() || v.Elem().Kind() != reflect.Struct {
+		return reflect.Value{}, false
+	}
+	f := v.Elem().FieldByName(name)
+	if !f.IsValid() || f.Kind() != kind || !f.CanAddr() {
+		return reflect.Value{}, false
 	}
 
-	return ok
+	return reflect.NewAt(f.Type(), unsafe.Pointer(f.UnsafeAddr())).Elem(), true //nolint:gosec
 }
 
-// VerifPacketizerTimestamp reads the packetizer's current RTP timestamp.
+// VerifSetPacketizerClock replaces the clock the packetizer reads the send time from.
+func VerifSetPacketizerClock(p Packetizer, f func() time.Time) bool {
+	fld, ok := verifField(p, "timegen", reflect.Func)
+	if !ok || fld.Type() != reflect.TypeOf(f) {
+		return false
+	}
+	fld.Set(reflect.ValueOf(f))
+
+	return true
+}
+
+// VerifPacketizerTimestamp reads the packetizer's running RTP timestamp.
 func VerifPacketizerTimestamp(p Packetizer) (uint32, bool) {
-	pp, ok := p.(*packetizer)
+	fld, ok := verifField(p, "Timestamp", reflect.Uint32)
 	if !ok {
 		return 0, false
 	}
 
-	return pp.Timestamp, true
+	return uint32(fld.Uint()), true //nolint:gosec
 }
 
-// VerifSetPacketizerTimestamp sets the packetizer's current RTP timestamp.
+// VerifSetPacketizerTimestamp sets the packetizer's running RTP timestamp.
 func VerifSetPacketizerTimestamp(p Packetizer, ts uint32) bool {
-	pp, ok := p.(*packetizer)
+	fld, ok := verifField(p, "Timestamp", reflect.Uint32)
 	if ok {
-		pp.Timestamp = ts
+		fld.SetUint(uint64(ts))
 	}
 
 	return ok
